@@ -4,8 +4,100 @@
 fail, to show the invariants are not vacuous); (B) seeded random closed-loop scenarios of the profile(s) below run on
 the REAL kopf.operator() in the world simulator, every trace judged by TLC against Trace_Handling.tla (all invariants
 of the module are evaluated on every state of the explaining behaviour, and time is bound by urgency).
+
+(M) OnceMonitor.tla: the statement as a property automaton for handlers AND sub-handlers, evaluated by TLC over runs of the real
+operator: a parent handler (on.create / on.update / on.resume) with two scripted sub-handlers, a plain sibling handler, edits in
+the middle of a cycle (a resuming cause superseded by an updating one), graceful restarts: nothing that has finished in a cycle
+is invoked again in it, retry numbers equal the recorded attempts, the cycle closes only when everything invoked is finished.
 """
 from vf.props import _family
+
+
+def once_case(sc):
+    import kopf
+    from sim.opsim import GROUP, PLURAL, VERSION, Sim
+    sim = Sim(wall_budget=20)
+    try:
+        sim.srv.keep_bodies.add(PLURAL)
+        reg = sim.registry()
+        out = lambda o: {'ok': 'ok', 'temp': ('temp', sc['delay']), 'perm': 'perm'}[o]
+        subs = {k: sim.handler(f'p/{k}', [out(o) for o in sc['subs'][k]]) for k in sc['subs']}
+
+        async def parent(**kw):
+            for k, fn in subs.items():
+                kopf.subhandler(id=k)(fn)
+        for dec in (kopf.on.create, kopf.on.update, kopf.on.resume):
+            dec(GROUP, VERSION, PLURAL, registry=reg, id='p')(parent)
+        q = sim.handler('q', [out(o) for o in sc['q']])
+        kopf.on.create(GROUP, VERSION, PLURAL, registry=reg, id='q')(q)
+        kopf.on.update(GROUP, VERSION, PLURAL, registry=reg, id='q')(q)
+        ops = [sim.operator('op1', reg, sim.settings())]
+        sim.world.at(1, lambda: sim.create('o1', {'x': 0}), 1)
+        n = {'op': 1}
+
+        def restart():
+            ops[-1].finish()
+            n['op'] += 1
+            ops.append(sim.operator(f'op{n["op"]}', reg, sim.settings()))
+        for (t, what) in sc['env']:
+            if what == 'edit':
+                sim.world.at(t, lambda t=t: sim.set_spec('o1', x=t), 1)
+            else:
+                sim.world.at(t, restart, 1)
+        sim.run(sc['end'])
+        events = []
+        for e in sim.recorder.events:
+            if e['ev'] == 'h.enter' and e.get('id') != 'p':
+                events.append({'ev': 'inv', 'id': e['id'], 'retry': e.get('retry') or 0, 't': e['t']})
+            elif e['ev'] == 'h.exit' and e.get('id') != 'p' and e.get('outcome') in ('ok', 'temp', 'perm'):
+                events.append({'ev': 'done', 'id': e['id'], 'how': e['outcome'], 't': e['t']})
+            elif e['ev'] == 'srv.req' and e.get('kind') == 'patch' and e.get('plural') == PLURAL and e.get('code') == 200:
+                ann = ((e.get('pbody') or {}).get('metadata') or {}).get('annotations') or {} if isinstance(e.get('pbody'), dict) else {}
+                purged = [k for k, v in ann.items() if v is None and k.startswith('kopf.zalando.org/') and not k.endswith('touch-dummy')]
+                if ann.get('kopf.zalando.org/last-handled-configuration') or purged:       # last-handled written / progress records removed
+                    events.append({'ev': 'close', 't': e['t']})
+        ops[-1].finish()
+        return {'id': sc['id'], 'events': events, 'scenario': sc}
+    finally:
+        sim.close()
+
+
+def once_scenarios(seed, n):
+    import random
+    rnd = random.Random(f'once-{seed}')
+    script = lambda: rnd.choice([['ok'], ['ok'], ['temp', 'ok'], ['temp', 'temp', 'ok'], ['perm'], ['temp', 'perm']])
+    out = [{'id': 'once-crafted', 'subs': {'s1': ['ok'], 's2': ['ok', 'temp', 'ok']}, 'q': ['ok'], 'delay': 5,
+            'env': [(10, 'restart'), (12, 'edit')], 'end': 60}]
+    for k in range(n):
+        env = []; t = 2
+        for _ in range(rnd.randint(1, 5)):
+            t += rnd.choice([1, 2, 3, 5, 9])
+            env.append((t, rnd.choice(['edit', 'edit', 'restart'])))
+        out.append({'id': f'once-{seed}-{k}', 'subs': {'s1': script(), 's2': script() + script()}, 'q': script() + script(), 'delay': rnd.choice([2, 4, 7]),
+                    'env': env, 'end': t + 40})
+    return out
+
+
+def judge_once(traces, rep):
+    import json, os, re, shutil, tempfile
+    from vf import tlc
+    from vf.evidence import MachineryFailure
+    scratch = tempfile.mkdtemp(prefix='vf-once-')
+    try:
+        path = os.path.join(scratch, 'traces.json')
+        with open(path, 'w') as f:
+            json.dump([{'id': t['id'], 'events': t['events']} for t in traces], f)
+        r = tlc.run('OnceMonitor', cfg_text='SPECIFICATION Spec\nCONSTRAINT Book\nPOSTCONDITION Verdicts\nCHECK_DEADLOCK FALSE\n', workers=1,
+                    env={'TRACE_FILE': path}, timeout=1200)
+    finally:
+        shutil.rmtree(scratch, ignore_errors=True)
+    if not r.ok:
+        raise MachineryFailure(f'OnceMonitor failed: {r.violated} {r.errors}\n{r.out[-3000:]}')
+    rep.add_tlc('OnceMonitor', r)
+    got = {int(m.group(1)): m.group(3) for m in re.finditer(r'<<\s*"MONITOR",\s*(\d+),\s*"([^"]*)",\s*"([^"]*)"\s*>>', r.out)}
+    if len(got) != len(traces) or 'incomplete' in got.values():
+        raise MachineryFailure(f'OnceMonitor: {len(got)} verdicts for {len(traces)} traces')
+    return {t['id']: got[i] for i, t in enumerate(traces, start=1)}
 
 PROFILES = "progress,errors".split(',')
 CFGS = "nodoors,lim".split(',')
@@ -24,3 +116,14 @@ def run(ctx, rep) -> None:
     for p in PROFILES:
         scs += H.gen_scenarios(ctx.seed, n // len(PROFILES), p)
     _family.run_traces(rep, scs, '+'.join(PROFILES), nontrivial=lambda f: bool(f & FEATURES))
+    from concurrent.futures import ProcessPoolExecutor
+    oscs = once_scenarios(ctx.seed, 120 if ctx.quick else 2500)
+    with ProcessPoolExecutor(16) as ex:
+        otr = list(ex.map(once_case, oscs, chunksize=4))
+    ov = judge_once(otr, rep)
+    rep.evaluations += len(otr); rep.traces += len(otr)
+    for t in otr:
+        if any(e['ev'] == 'done' and e['how'] != 'ok' for e in t['events']):
+            rep.nontrivial(t['events'])
+        if ov[t['id']] != 'ok':
+            rep.violation(f'{t["id"]}: {ov[t["id"]]} {t["scenario"]}', payload=t)
